@@ -46,6 +46,7 @@ type FileFault struct {
 	ChunkSize int    `json:"chunk"`
 	StallAt   int    `json:"stall_at,omitempty"`
 	StallFor  string `json:"stall_for,omitempty"`
+	OpenOnly  int    `json:"opens_that_succeed,omitempty"` // later opens fail: the file was removed while the scan was running
 }
 
 type WorldSpec struct {
@@ -149,6 +150,7 @@ func runCmd(t *testing.T, c simrt.Chooser, w *WorldSpec, trace bool) *CmdResult 
 			if ff, ok := w.FileFault[name]; ok {
 				fs.ErrAt, fs.ChunkSize = ff.ErrAt, ff.ChunkSize
 				fs.StallAt, fs.StallFor = ff.StallAt, parseDur(ff.StallFor)
+				fs.OpenOnly = ff.OpenOnly
 			}
 			iow.Files[name] = fs
 		}
